@@ -34,6 +34,7 @@ func (e *Enc) compileQuantOver(c *SpecCtx, x *Expr) CE {
 		arr = e.B.define("qelems", "(Array Int "+e.B.sortOf(elem)+")", fmt.Sprintf("(select %s (sarr %s))", h, sv))
 	}
 	a := e.B.freshName("q." + x.Var)
+	e.noteBound(a, "Int")
 	ptr := fmt.Sprintf("(mkptr (sarr %s) %s)", sv, a)
 	el := CE{T: fmt.Sprintf("(select %s %s)", arr, a), Typ: elem, P: &Place{Kind: PDeref, Ptr: ptr, Typ: elem}}
 	el = e.typedRead(c, el)
